@@ -68,11 +68,23 @@ func tsaGetWorld() *tsaWorld {
 		badInter("intermediate-without-certsign", func(t *pki.Tmpl) { t.KeyUsage = x509.KeyUsageCRLSign })
 		badInter("intermediate-without-key-usage", func(t *pki.Tmpl) { t.KUAbsent = true })
 		badInter("intermediate-not-a-ca", func(t *pki.Tmpl) { t.CA = false; t.BCLeafFalse = true })
+		// a CA whose own extended key usage excludes timestamping: the token does not chain to the trusted roots *for timestamping*
+		badInter("intermediate-with-eku-codesigning-only", func(t *pki.Tmpl) { t.EKUs = []asn1.ObjectIdentifier{pki.OIDEKUCodeSigning} })
+		badInter("intermediate-with-eku-email-only", func(t *pki.Tmpl) { t.EKUs = []asn1.ObjectIdentifier{pki.OIDEKUEmail} })
 		// TSA certificates that are not valid *now* (the moment of signing): the authority's own clock (genTime) says otherwise
 		day := 24 * time.Hour
 		mk("leaf-expired", func(t *pki.Tmpl) { t.NotBefore, t.NotAfter = pki.Now.Add(-20*time.Hour), pki.Now.Add(-2*time.Hour) }) // inside the CAs' validity (from -24 h)
 		mk("leaf-not-yet-valid", func(t *pki.Tmpl) { t.NotBefore, t.NotAfter = pki.Now.Add(30*day), pki.Now.Add(400*day) })
 		badInter("intermediate-expired", func(t *pki.Tmpl) { t.NotBefore, t.NotAfter = pki.Now.Add(-20*time.Hour), pki.Now.Add(-2*time.Hour) })
+		// the identity (issuer, serial) of the *valid* TSA certificates again, above or under something defective: what was concluded for
+		// a good chain says nothing about another chain with the same signing-certificate identity
+		reLeaf := pki.TSALeafTmpl("tsa leaf (chain 2)")
+		reLeaf.Serial = w.leaf2.X.SerialNumber
+		reLeaf.KeyUsage |= x509.KeyUsageKeyEncipherment
+		w.variants["valid-leaf-reissued-under-its-serial-with-extra-key-usage-bit"] = []*pki.Cert{pki.Issue(reLeaf, pki.K("p256-f"), w.root, nil), w.root}
+		reInter := pki.CATmpl("tsa inter")
+		reInter.KUAbsent = true
+		w.variants["valid-leaf-under-reissued-intermediate-without-key-usage"] = []*pki.Cert{w.leaf3, pki.Issue(reInter, pki.K("p384-a"), w.root, nil), w.root}
 		w.pool = x509.NewCertPool()
 		w.pool.AddCert(w.root.X)
 		// a *trusted* root that is a CA but lacks the key usage extension (path building tolerates it; only the library's own validation objects)
@@ -149,7 +161,8 @@ func tsaBehaviours() []tsaBehaviour {
 	token("message-digest-attribute-mismatch", false, 0, func(w *tsaWorld) pki.TSASpec { s := std2(w); s.WrongMsgDigest = true; return s })
 	token("no-certificates-in-token", false, 0, func(w *tsaWorld) pki.TSASpec { s := std2(w); s.Embed = nil; return s })
 	for _, v := range []string{"leaf-eku-not-critical", "leaf-extra-eku", "leaf-is-ca", "leaf-extra-key-usage-bit", "leaf-without-key-usage", "leaf-without-timestamping-eku",
-		"intermediate-without-certsign", "intermediate-without-key-usage", "intermediate-not-a-ca", "root-without-key-usage(chain 2)", "root-without-key-usage(chain 3)"} {
+		"intermediate-without-certsign", "intermediate-without-key-usage", "intermediate-not-a-ca", "root-without-key-usage(chain 2)", "root-without-key-usage(chain 3)",
+		"intermediate-with-eku-codesigning-only", "intermediate-with-eku-email-only", "valid-leaf-reissued-under-its-serial-with-extra-key-usage-bit", "valid-leaf-under-reissued-intermediate-without-key-usage"} {
 		v := v
 		token("tsa-"+v, false, 0, func(w *tsaWorld) pki.TSASpec { ch := w.variants[v]; return pki.TSASpec{Signer: ch[0], Embed: ch} })
 	}
